@@ -34,6 +34,9 @@ func ghost_complete(p string) bool        { panic("ghost") }
 func ghost_items(p string) int            { panic("ghost") }
 func ghost_idxIDs(p string) vcSeq[string] { panic("ghost") }
 func ghost_idxSeen(p string) vcSeq[bool]  { panic("ghost") }
+func ghost_fcontent(p string) vcTok       { panic("ghost") }
+func ghost_rcontent(r io.Reader) vcTok    { panic("ghost") }
+func ghost_wcontent(w io.Writer) vcTok    { panic("ghost") }
 
 func ghost_fpath(f *os.File) string        { panic("ghost") }
 func ghost_wfile(w *bufio.Writer) *os.File { panic("ghost") }
@@ -133,6 +136,13 @@ func spec_decoded(path string, k int, v any) bool {
 //@   loop 1: invariant[matchB] spec_entriesMatchB(mb)
 //@   serves C10 C07 C09
 
+// Source (C02): a reader over exactly the content of the message's raw file.
+//@ func (*Message).Source
+//@   requires m.mailbox != nil
+//@   ensures[yieldsFile C02] err == nil ==> reader != nil && ghost_rcontent(reader) == ghost_fcontent(filepath.Join(m.mailbox.path, m.Fid+".raw"))
+//@   ensures (reader != nil) != (err != nil)
+//@   serves C02 C07
+
 // Getters.
 //@ func (*Message).ID
 //@   ensures ret == m.Fid
@@ -184,8 +194,9 @@ func spec_decoded(path string, k int, v any) bool {
 // timestamps followed by a counter, the index is called index.gob).
 //@ func (*Message).rawPath
 //@   requires m.mailbox != nil
+//@   ensures[path C02] ret == filepath.Join(m.mailbox.path, m.Fid+".raw")
 //@   ensures[assumedNotTheIndex] ret != m.mailbox.indexPath && ret != m.mailbox.indexPath + ".tmp" && ret != m.mailbox.path
-//@   serves C11
+//@   serves C11 C02
 //@ func (*mbox).createDir
 //@   inline
 //@ func (*mbox).removeDir
@@ -202,7 +213,7 @@ func spec_decoded(path string, k int, v any) bool {
 //@   attr fslock=1
 //@   requires spec_listOK(mb)
 //@   modifies ghost_exists(mb.path), ghost_exists(mb.indexPath), ghost_complete(mb.indexPath), ghost_items(mb.indexPath),
-//@      ghost_exists(mb.indexPath + ".tmp"), ghost_complete(mb.indexPath + ".tmp"), ghost_items(mb.indexPath + ".tmp"),
+//@      ghost_exists(mb.indexPath + ".tmp"), ghost_complete(mb.indexPath + ".tmp"), ghost_items(mb.indexPath + ".tmp"), ghost_fcontent(mb.indexPath + ".tmp"),
 //@      ghost_exists(filepath.Dir(mb.path)), ghost_complete(filepath.Dir(mb.path)), ghost_items(filepath.Dir(mb.path)),
 //@      ghost_exists(filepath.Dir(filepath.Dir(mb.path))), ghost_complete(filepath.Dir(filepath.Dir(mb.path))), ghost_items(filepath.Dir(filepath.Dir(mb.path))),
 //@      ghost_idxIDs(mb.indexPath), ghost_idxSeen(mb.indexPath)
@@ -230,7 +241,7 @@ func spec_decoded(path string, k int, v any) bool {
 //@   attr holds=mb.RWMutex:w
 //@   attr fslock=1
 //@   requires spec_mbInv(mb) && spec_listOK(mb)
-//@   modifies mb.messages, elems(mb.messages), mb.indexLoaded, mb.name, allof(ghost_exists), allof(ghost_complete), allof(ghost_items), allof(ghost_idxIDs), allof(ghost_idxSeen), ghost_nemitted(&mb.store.extHost.Events.AfterMessageDeleted), ghost_emitted(&mb.store.extHost.Events.AfterMessageDeleted)
+//@   modifies mb.messages, elems(mb.messages), mb.indexLoaded, mb.name, allof(ghost_exists), allof(ghost_complete), allof(ghost_items), allof(ghost_fcontent), allof(ghost_idxIDs), allof(ghost_idxSeen), ghost_nemitted(&mb.store.extHost.Events.AfterMessageDeleted), ghost_emitted(&mb.store.extHost.Events.AfterMessageDeleted)
 //@   ensures[stillSafe C11] spec_idxSafe(mb.indexPath) || !old(spec_idxSafe(mb.indexPath))
 //@   ensures[handleOK] mb.indexLoaded ==> spec_listOK(mb)
 //@   ensures[consistent] ret == nil ==> spec_mbInv(mb)
@@ -259,6 +270,8 @@ func spec_decoded(path string, k int, v any) bool {
 //@   serves C07 C10 C11 C16 C09
 
 // The index file of a mailbox: a function of the store's mail path and the mailbox name only.
+//@ pred spec_mboxPath(fs *Store, mailbox string) string = filepath.Join(fs.mailPath, stringutil.HashMailboxName(mailbox)[0:3], stringutil.HashMailboxName(mailbox)[0:6], stringutil.HashMailboxName(mailbox))
+//@ pred spec_rawPath(fs *Store, mailbox string, id string) string = filepath.Join(spec_mboxPath(fs, mailbox), id+".raw")
 //@ pred spec_indexPath(fs *Store, mailbox string) string = filepath.Join(filepath.Join(fs.mailPath, stringutil.HashMailboxName(mailbox)[0:3], stringutil.HashMailboxName(mailbox)[0:6], stringutil.HashMailboxName(mailbox)), indexFileName)
 
 // A mailbox handle is always built from scratch: nothing is cached between operations, so every
@@ -267,8 +280,8 @@ func spec_decoded(path string, k int, v any) bool {
 //@   requires fs.extHost != nil && fs.extHost.Events != nil
 //@   ensures ret != nil && vcFresh(ret) && ret.RWMutex != nil && ret.store == fs && ret.name == mailbox && !ret.indexLoaded && len(ret.messages) == 0 && cap(ret.messages) == 0
 //@   ensures[assumedPathsDistinct] spec_listOK(ret)
-//@   ensures[deterministicPaths C10] ret.indexPath == spec_indexPath(fs, mailbox)
-//@   serves C10 C07
+//@   ensures[deterministicPaths C10] ret.indexPath == spec_indexPath(fs, mailbox) && ret.path == spec_mboxPath(fs, mailbox)
+//@   serves C10 C07 C02
 
 //@ func (*Store).mboxFromHash
 //@   requires fs.extHost != nil && fs.extHost.Events != nil && len(hash) >= 6
@@ -335,7 +348,7 @@ func spec_decoded(path string, k int, v any) bool {
 //@ func (*mbox).newMessage
 //@   trusted
 //@   requires spec_mbInv(mb) && spec_listOK(mb)
-//@   modifies mb.messages, elems(mb.messages), mb.indexLoaded, mb.name, allof(ghost_exists), allof(ghost_complete), allof(ghost_items), allof(ghost_idxIDs), allof(ghost_idxSeen), ghost_nemitted(&mb.store.extHost.Events.AfterMessageDeleted), ghost_emitted(&mb.store.extHost.Events.AfterMessageDeleted)
+//@   modifies mb.messages, elems(mb.messages), mb.indexLoaded, mb.name, allof(ghost_exists), allof(ghost_complete), allof(ghost_items), allof(ghost_fcontent), allof(ghost_idxIDs), allof(ghost_idxSeen), ghost_nemitted(&mb.store.extHost.Events.AfterMessageDeleted), ghost_emitted(&mb.store.extHost.Events.AfterMessageDeleted)
 //@   ensures[stillSafe C11] spec_idxSafe(mb.indexPath) || !old(spec_idxSafe(mb.indexPath))
 //@   crashinv[indexReadable] spec_idxSafe(mb.indexPath) || !old(spec_idxSafe(mb.indexPath))
 //@   ensures ret1 == nil ==> ret0 != nil && vcFresh(ret0) && ret0.mailbox == mb && mb.indexLoaded && spec_listOK(mb)
@@ -353,13 +366,14 @@ func spec_decoded(path string, k int, v any) bool {
 //@   requires spec_storeOK(fs) && m != nil
 //@   modifies *
 //@   crashinv[indexReadable] spec_idxSafe(spec_indexPath(fs, m.Mailbox())) || !old(spec_idxSafe(spec_indexPath(fs, m.Mailbox())))
+//@   ensures[storesSource C02] err == nil ==> ghost_fcontent(spec_rawPath(fs, m.Mailbox(), id)) == storage.Ghost_srcContent(m)
 //@   ensures[appendedLast C07 C10] err == nil ==> spec_idxN(spec_indexPath(fs, m.Mailbox())) >= 1 &&
 //@      vcSeqAt(ghost_idxIDs(spec_indexPath(fs, m.Mailbox())), spec_idxN(spec_indexPath(fs, m.Mailbox()))-1) == id
 //@   ensures[cap C08] err == nil && fs.messageCap > 0 ==> spec_idxN(spec_indexPath(fs, m.Mailbox())) <= fs.messageCap
 //@   ensures[noCapKeepsAll C07 C08 C10] err == nil && fs.messageCap <= 0 ==> spec_idxN(spec_indexPath(fs, m.Mailbox())) == old(spec_idxN(spec_indexPath(fs, m.Mailbox()))) + 1 &&
 //@      forall i int :: { vcSeqAt(ghost_idxIDs(spec_indexPath(fs, m.Mailbox())), i) } 0 <= i && i < old(spec_idxN(spec_indexPath(fs, m.Mailbox()))) ==>
 //@         vcSeqAt(ghost_idxIDs(spec_indexPath(fs, m.Mailbox())), i) == old(vcSeqAt(ghost_idxIDs(spec_indexPath(fs, m.Mailbox())), i))
-//@   serves C07 C08 C10 C11 C01 C09
+//@   serves C07 C08 C10 C11 C01 C09 C02
 
 // VisitMailboxes: f is applied to the list of every mailbox directory found.
 // (ASSUMED: the visitor is an arbitrary callback; the engine's havoc of the whole heap at a callback also
